@@ -70,7 +70,7 @@ func init() {
 			return 250
 		},
 		Batch:        5,
-		BatchTimeout: 15 * time.Minute,
+		BatchTimeout: 45 * time.Minute,
 		ChildEnv:     []string{"GOGC=400"},
 		Run:          c15run,
 		MinDistinct:  30,
